@@ -461,7 +461,8 @@ SPECIAL = {
     else {"ar1": 1},
     "linspace": lambda h: ("tuple", [{"start": 1}, {"start": 1}]) if h.flags.get("retstep")
     else {"start": 1},
-    "trapezoid": lambda h: {"y": 1, "x": 1} if h.flags.get("x") == "array" else {"y": 1},
+    "trapezoid": lambda h: {"y": 1, "x": 1} if h.flags.get("x") == "array" else (
+        {"y": 1, "dx": 1} if h.flags.get("dx") == "array" else {"y": 1}),
     "einsum": lambda h: {"operands*": 1},
     "det": lambda h: {"a": _det_order}, "prod": lambda h: None, "histogram": lambda h: None,
     "histogram2d": lambda h: None, "histogramdd": lambda h: None, "logspace": lambda h: None,
